@@ -863,3 +863,12 @@ impl Context {
         self.terminal_width = width;
     }
 }
+
+/// Verification hooks (read-only accessors), see `verif_hooks`.
+#[cfg(feature = "verif-hooks")]
+impl Context {
+    /// The unit constant the VM holds for a unit name or alias (its direct definition tree).
+    pub fn verif_unit(&self, name: &str) -> Option<unit::Unit> {
+        self.interpreter.get_defining_unit(name).cloned()
+    }
+}
